@@ -12,6 +12,16 @@ use crate::seam;
 use crate::tok;
 use crate::world::*;
 
+/// Marking work visible in a hook snapshot: objects that carry a mark of this cycle, and objects
+/// that are fully traced (an upper bound on the trace credits earned).
+fn mark_work(s: &gc_arena::VerifSnapshot) -> (usize, usize) {
+    let marked = s.objects.iter().filter(|o| o.color != 0).count();
+    // every black object: one that needs no tracing may still have been queued and "traced" (a
+    // resurrected leaf is), so counting those too keeps the bound on the safe side
+    let traced = s.objects.iter().filter(|o| o.color == 3).count();
+    (marked, traced)
+}
+
 impl World {
     /// Step-size control (DESIGN 2.8): make the debt exactly `target` through the public API.
     pub fn set_debt(&mut self, a: Aid, target: f64) {
@@ -56,6 +66,10 @@ impl World {
         let drops0 = tok::drop_log_len();
         let count0 = m.total_gc_count();
         self.observe_state(a, 0xC0);
+        // marking work that can be seen through the hook: (objects marked, tracing objects fully traced)
+        // (not for collect_debt: it alone may finish the cycle and be back in a *new* marking phase
+        // when it returns or unwinds - the fence of DESIGN 3 - so "stayed in marking" is unknowable)
+        let work0 = if self.cfg.coverage && call != Call::CollectDebt && matches!(p, Phase::Marking | Phase::Marked) { self.snapshot(a).map(|s| mark_work(&s)) } else { None };
 
         self.shield(&protect, &weak_protect);
         let res = {
@@ -135,6 +149,35 @@ impl World {
             self.stats.flag("C20.two-mid-cycle");
         }
 
+        // ---- C10: a call that stayed inside the marking phase pays no more debt than the marking
+        // work it did (objects it marked first, tracing objects it traced to completion): in
+        // particular a trace that unwound and was queued again has paid nothing
+        if let (Some((m0, t0)), true) = (work0, matches!(post, Phase::Marking | Phase::Marked)) {
+            if let Some((m1, t1)) = self.snapshot(a).map(|s| mark_work(&s)) {
+                let work = pacing.mark * (m1 as f64 - m0 as f64) + pacing.trace * (t1 as f64 - t0 as f64);
+                let paid = d0 - d1;
+                let dyadic = [pacing.mark, pacing.trace, pacing.keep, pacing.drop, pacing.free].iter().all(|f| (f * 1024.0).fract() == 0.0);
+                let hidden = self.rt[a as usize].debt_scale.max(self.rt[a as usize].allocs as f64);
+                let scale = d0.abs().max(work.abs()).max(hidden);
+                let tol = if dyadic { 64.0 * f64::EPSILON * scale } else { 1e-9 * (1.0 + scale) };
+                self.stats.flag("C10.mark-work-checked");
+                if unwound {
+                    self.stats.flag("C10.unwound-trace-checked");
+                }
+                if d0 > 0.0 && paid > work.max(0.0) + tol {
+                    self.violate(
+                        "C10.decrease",
+                        format!(
+                            "{call:?} on arena {a} stayed in the marking phase{}; it marked {} objects and completed {} traces (worth {work} at the current pacing) but allocation_debt went from {d0} to {d1}",
+                            if unwound { " and unwound out of a trace" } else { "" },
+                            m1 as i64 - m0 as i64,
+                            t1 as i64 - t0 as i64
+                        ),
+                    );
+                    return;
+                }
+            }
+        }
         // ---- C08: phase protocol
         if !unwound {
             let allowed = allowed_post(call, p, dpos);
